@@ -68,6 +68,9 @@ impl TombstoneLog {
         tombstones: &mut Vec<Tombstone>,
     ) -> Result<Self> {
         let mut recovered = vec![];
+        // Address of the last used slot, and whether the log still has free slots (i.e. it has never wrapped around).
+        let mut last_used = None;
+        let mut has_free_slot = false;
 
         for partition in partitions.iter() {
             for offset in (0..partition.size()).step_by(PAGE) {
@@ -87,8 +90,10 @@ impl TombstoneLog {
                         addr = offset + slot * Tombstone::SERIALIZED_LEN;
                     }
                     if tombstone.sequence == 0 {
+                        has_free_slot = true;
                         continue;
                     }
+                    last_used = Some(offset + slot * Tombstone::SERIALIZED_LEN);
                     recovered.push((tombstone, addr));
                 }
             }
@@ -104,6 +109,12 @@ impl TombstoneLog {
                 *addr
             })
             .unwrap_or_default();
+        // Several flushers append their tombstones independently, so the tombstone with the latest sequence is not
+        // necessarily the last one in the log. Until the log wraps around, continue after the last used slot.
+        let latest_tombstone_offset = match (has_free_slot, last_used) {
+            (true, Some(last_used)) => last_used,
+            _ => latest_tombstone_offset,
+        };
 
         tombstones.extend(recovered.into_iter().map(|(tombstone, _)| tombstone));
 
